@@ -427,6 +427,21 @@ Fixpoint seq_spec (cur : federation) (ops : list fop) (outs : list ares) : Prop 
   | _, _ => False
   end.
 
+(* Several resolvers in one process, each configured with NAMED metadata sources (files, URLs, loaders, inline
+   documents; strengthening round 6): the names do not matter, other resolvers do not matter, earlier loads do not
+   matter — each resolution is judged against the documents of the configuration that the resolver which performs it
+   has loaded most recently. *)
+Definition cfg_docs (cfg : mdconfig) : federation := map snd cfg.
+
+Fixpoint mseq_spec (st : list (nat * federation)) (ops : list mop) (outs : list ares) : Prop :=
+  match ops, outs with
+  | [], [] => True
+  | MLoad rcv cfg :: r, _ => mseq_spec ((rcv, cfg_docs cfg) :: st) r outs
+  | MResolve rcv eid _ idx ro :: r, d :: outs' =>
+      artfed_spec {| f_fed := fed_of st rcv; f_eid := eid; f_idx := idx; f_role := ro |} d /\ mseq_spec st r outs'
+  | _, _ => False
+  end.
+
 (* ================================================================== guards and finding classes *)
 
 (* ---- open classes: the theorems hold outside them *)
